@@ -1,5 +1,5 @@
 (* Driver entry points for C02. Input: (files expectations): files as for C01;
-   expectations = ((pkg name (line ...) ((fname line col ((kind name line col pkg node) ...)) ...)) ...) *)
+   expectations = ((pkg name (line ...) ((fname line col ((kind name line col pkg node [via-this]) ...)) ...)) ...) *)
 From Coq Require Import String List Bool Arith.
 From Coca Require Import Lib.Sx Lib.GoMap Lib.Str Model.CodeModel Model.JavaFull Model.JavaIdent
      Model.JavaFactsCodec Model.JavaSelect Model.JavaCallSpec Entry.C01.
@@ -9,7 +9,7 @@ Open Scope string_scope.
 
 Definition xcall_of_sx (x : sx) : xcall :=
   mkX (sx_str (sx_nth 0 x)) (sx_str (sx_nth 1 x)) (sx_nat (sx_nth 2 x)) (sx_nat (sx_nth 3 x))
-      (sx_str (sx_nth 4 x)) (sx_str (sx_nth 5 x)).
+      (sx_str (sx_nth 4 x)) (sx_str (sx_nth 5 x)) (sx_bool (sx_nth 6 x)).
 Definition xfunc_of_sx (x : sx) : xfunc :=
   mkXF (sx_str (sx_nth 0 x)) (sx_nat (sx_nth 1 x)) (sx_nat (sx_nth 2 x)) (map xcall_of_sx (sx_list (sx_nth 3 x)))
        (sx_nat (sx_nth 4 x)).
